@@ -1990,4 +1990,25 @@ theorem prevObs_spec (col : List Cell) (i j : Nat) (h : prevObs col i = some j) 
   exact this hj2
 
 
+/-! ### extrapolate: invariant -/
+
+theorem inv_extrapolate (s : Series) (coeffs : List Rat) (c : Rat) (serials : List Int) (r : Series) (hI : Inv s)
+    (h : s.extrapolate coeffs c serials = .ok r) : Inv r := by
+  unfold Series.extrapolate at h
+  split at h
+  · simp only [pure, Except.pure, Except.ok.injEq] at h; subst h; exact hI
+  · simp only [pure, Except.pure, Except.ok.injEq] at h; subst h; exact hI
+  · split at h
+    · cases h
+    · exact (setData_spec _ _ _ _ r hI h).1
+
+theorem inv_extrapolateP (s : Series) (coeffs : List Rat) (c : Rat) (ps : List Period) (r : Series) (hI : Inv s)
+    (h : s.extrapolateP coeffs c ps = .ok r) : Inv r := by
+  unfold Series.extrapolateP at h
+  split at h
+  · simp only [pure, Except.pure, Except.ok.injEq] at h; subst h; exact hI
+  · simp only [bind_ok] at h
+    obtain ⟨serials, _, h2⟩ := h
+    exact inv_extrapolate s coeffs c serials r hI h2
+
 end IrisVerif.Series
